@@ -702,6 +702,9 @@ CONFIGS['ps_listener_cb_quick'] = dict(
     inject=[_CB('hx', 's2', 1), _CB('h2', 's2', 1), _CB('h1', 's2', 9),
             _CB('h1', 's2', 1), _CB('nobody', 's2', 1),
             _CB('absent', 's2', 1)])
+# ... and coroutine callbacks that end in CancelledError (asyncio only)
+CONFIGS['ps_listener_cbcancel_quick'] = dict(
+    CONFIGS['ps_listener_cb_quick'], cb_cancel=True, variants=('asyncio',))
 # junk and backend failures interleaved with operations whose processing
 # raises in the listener (disconnect handler raising: known finding D3)
 CONFIGS['ps_listener_fault_quick'] = dict(
